@@ -20,20 +20,20 @@ class In(io.BytesIO):
 MAX_BODY = 1000
 
 # how the handler touches the request body (after its statements, before its outcome)
-def _pre_body(app):
+def _pre_body(app, kw=None):
     app.request.body
 
 
-def _pre_json(app):
+def _pre_json(app, kw=None):
     app.request.json
 
 
-def _pre_reqerr(app):
+def _pre_reqerr(app, kw=None):
     from ombott.request_pkg.errors import RequestError
     app.request._raise(RequestError('synthetic'), RequestError)
 
 
-def _pre_upload(app):
+def _pre_upload(app, kw=None):
     """reads the multipart form: answers with a description of every field and upload, part headers
     and content type included"""
     forms, files = app.request.forms, app.request.files
@@ -48,7 +48,59 @@ def _pre_upload(app):
     return '\n'.join(out) or 'nothing'
 
 
-PRE = {'body': _pre_body, 'json': _pre_json, 'reqerr': _pre_reqerr, 'upload': _pre_upload}
+def _pre_wild(app, kw=None):
+    """a handler behind a wildcard rule: answers with the matched value, query, cookies, a header"""
+    r = app.request
+    return (f'wild {sorted((k, repr(v)) for k, v in (kw or {}).items())} q={sorted(r.query.items())} '
+            f'c={sorted(r.cookies.items())} h={r.headers.get("X-V")}')
+
+
+PROBES = ('user', '_token', 'app.key')
+
+
+def make_pre_ext(sets):
+    """login-then-anonymous pattern: the handler stores extension attributes / items on the reused
+    request object and answers with what it then reads back"""
+    def pre(app, kw=None):
+        r = app.request
+        for k, v in sets:
+            if k == 'app.key':
+                r[k] = v
+            else:
+                setattr(r, k, v)
+        out = []
+        for n in PROBES:
+            if n == 'app.key':
+                v = r.get(n, '-')
+            else:
+                try:
+                    v = getattr(r, n)
+                except AttributeError:
+                    v = '-'
+            out.append(f'{n}={v}')
+        return ';'.join(out)
+    return pre
+
+
+PRE = {'body': _pre_body, 'json': _pre_json, 'reqerr': _pre_reqerr, 'upload': _pre_upload, 'wild': _pre_wild}
+
+
+def pre_of(h):
+    if h.get('ext') is not None:
+        return make_pre_ext(h['ext'])
+    return PRE.get(h['pre'])
+
+
+SHARED = {'E': ('r', True, dict(status=403, headers=[('X-S', 's')], cookies=[]), ('t', 'denied')),
+          'E2': ('r', True, dict(status=409, headers=[], cookies=[]), ('f', 'none')),
+          'R': ('r', False, dict(status=200, headers=[('X-S', 'r')], cookies=[('sc', '1')]), ('t', 'shared body'))}
+
+
+RAISE_SINGLETONS = [True]
+
+
+def plain_spec():
+    return dict(before=[], after=[], errh=[], shared=dict(SHARED))
 
 
 def multipart_body(boundary, parts):
@@ -60,20 +112,23 @@ def multipart_body(boundary, parts):
     out.append(('--' + boundary + '--\r\n').encode('ascii'))
     return b''.join(out)
 
-# body-error kinds: (pre, request body, extra environ, class raised through BaseRequest._raise)
+# body-error kinds: (pre, request body, extra environ, class raised through BaseRequest._raise; a trailing
+# '+' = raised while a ValueError with a live traceback is being handled, which the shared error's
+# __context__ then keeps until the next raise)
 BODY_KINDS = {
-    'chunked-garbage': ('body', b'zz\r\nxx', {'HTTP_TRANSFER_ENCODING': 'chunked'}, 'BodyParsingError'),
+    'chunked-garbage': ('body', b'zz\r\nxx', {'HTTP_TRANSFER_ENCODING': 'chunked'}, 'BodyParsingError+'),
     'chunked-truncated': ('body', b'5\r\nab', {'HTTP_TRANSFER_ENCODING': 'chunked'}, 'BodyParsingError'),
     'oversize': ('body', b'x' * 1200, {'CONTENT_LENGTH': '1200'}, 'BodySizeError'),
     'oversize-chunked': ('body', b'4b1\r\n' + b'y' * 0x4b1 + b'\r\n0\r\n\r\n', {'HTTP_TRANSFER_ENCODING': 'chunked'},
                          'BodySizeError'),
-    'bad-json': ('json', b'{x', {'CONTENT_LENGTH': '2', 'CONTENT_TYPE': 'application/json'}, 'BodyParsingError'),
+    'bad-json': ('json', b'{x', {'CONTENT_LENGTH': '2', 'CONTENT_TYPE': 'application/json'}, 'BodyParsingError+'),
     'request-error': ('reqerr', b'', {}, 'RequestError'),
     'good-body': ('body', b'hello', {'CONTENT_LENGTH': '5'}, None),
 }
 
 KINDS = ['ok-text', 'ok-cookie', 'ok-zoo', 'nf', 'na', 'badpath', 'crash', 'raise-resp', 'ret-error', 'head',
-         'iterable', 'cookie-then-body-error', 'upload', 'upload'] + list(BODY_KINDS)
+         'iterable', 'cookie-then-body-error', 'upload', 'upload', 'app-error', 'app-resp', 'login', 'whoami', 'whoami',
+         'wild'] + list(BODY_KINDS)
 
 
 def gen_hreq(g, rng, rid, kind=None, spec=None):
@@ -82,7 +137,7 @@ def gen_hreq(g, rng, rid, kind=None, spec=None):
     req = dict(id=rid, method='GET', fw=rng.random() < .3, path_ok=True,
                tail=rng.choice(['', '', 'a', 'u%d' % rid, '<i>&"\'', 'é€']), query=rng.choice(['', 'a=1', 'r=%d' % rid]),
                route=None)
-    body, extra, pre, bodyerr = b'', {}, None, None
+    body, extra, pre, bodyerr, ext = b'', {}, None, None, None
     ck = lambda: ('ck', rng.choice(zoo.CK_NAMES), rng.choice(zoo.CK_VALS))
     sh = lambda: ('sh', rng.choice(['X-A', 'X-B', 'ETag']), rng.choice(['v', '1', 'r%d' % rid]))
     if kind == 'ok-text':
@@ -133,6 +188,27 @@ def gen_hreq(g, rng, rid, kind=None, spec=None):
         pre = 'upload'
         req['route'] = ('h', [ck()] if rng.random() < .3 else [], ('ret', ('t', 'upload-description')))
         req['method'] = 'POST'
+    elif kind in ('app-error', 'app-resp'):
+        key = rng.choice(['E', 'E2']) if kind == 'app-error' else 'R'
+        # raised or returned (d1483c6: `_handle` drops the traceback of a raised response it catches)
+        how = rng.choice(['rr', 'ret']) if kind == 'app-error' and RAISE_SINGLETONS[0] else 'ret'
+        req['route'] = ('h', [ck()] if rng.random() < .3 else [], (how, ('sh', key)))
+        if rng.random() < .3:
+            req['method'] = 'HEAD'
+    elif kind in ('login', 'whoami'):
+        ext = []
+        if kind == 'login':
+            ext = rng.sample([('user', 'u%d' % rid), ('_token', 't%d' % rid), ('app.key', 'k%d' % rid)], rng.choice([1, 2, 3]))
+        req['route'] = ('h', [ck()] if rng.random() < .2 else [], ('ret', ('t', 'probe')))
+    elif kind == 'wild':
+        fl = rng.choice(list(zoo.WILD_RULES))
+        val = {'s': 'v%d' % rid, 'i': str(rid * 7 - 3), 'f': '%d.%d' % (rid, rid % 10), 'r': 'ab' + 'c' * (rid % 5) + str(rid),
+               'p': 'a/b%d/c' % rid, 'x': rng.choice('qz') + 'k%d' % rid, 'c': 'w%d' % rid}[fl]
+        req['wild'] = (fl, val)
+        req['query'] = 'n=%d&m=x%d' % (rid, rid * 3)
+        extra = {'HTTP_COOKIE': 'c=v%d; d=%d' % (rid, rid), 'HTTP_X_V': 'hv%d' % rid}
+        pre = 'wild'
+        req['route'] = ('h', [], ('ret', ('t', 'wild-description')))
     elif kind == 'cookie-then-body-error':
         k = rng.choice([x for x in BODY_KINDS if BODY_KINDS[x][3]])
         pre, body, extra, bodyerr = BODY_KINDS[k]
@@ -144,7 +220,7 @@ def gen_hreq(g, rng, rid, kind=None, spec=None):
         req['method'] = 'POST'
     if spec is not None and rng.random() < .3 and zoo.json_safe(spec, req):
         req['json'] = True       # JSON error bodies (same mapped error, other representation)
-    return dict(req=req, kind=kind, body=body, extra=dict(extra), pre=pre, bodyerr=bodyerr)
+    return dict(req=req, kind=kind, body=body, extra=dict(extra), pre=pre, bodyerr=bodyerr, ext=ext)
 
 
 def class_state_snapshot():
@@ -181,6 +257,36 @@ def class_state_snapshot():
     return snap
 
 
+def container_sizes():
+    """len() of every class-level / module-level container of the package and the current size of every
+    functools cache whose wrapped function lives in the package (closures of route filters included:
+    the wrappers are found through the collector, not by name)"""
+    import functools
+    import inspect
+    import sys
+    out = {}
+    for mn, mod in sorted(sys.modules.items()):
+        if not (mn == 'ombott' or mn.startswith('ombott.')) or mod is None:
+            continue
+        for name, obj in list(vars(mod).items()):
+            if name.startswith('__'):
+                continue
+            if isinstance(obj, (dict, list, set)):
+                out[f'{mn}:{name}'] = len(obj)
+            if inspect.isclass(obj) and obj.__module__ == mn:
+                for an, av in list(vars(obj).items()):
+                    if not (an.startswith('__') and an.endswith('__')) and isinstance(av, (dict, list, set)):
+                        out[f'{mn}:{obj.__name__}.{an}'] = len(av)
+    for o in gc.get_objects():
+        if isinstance(o, functools._lru_cache_wrapper):
+            w = getattr(o, '__wrapped__', None)
+            mod = getattr(w, '__module__', '') or ''
+            if mod == 'ombott' or mod.startswith('ombott.'):
+                key = f'cache:{mod}.{getattr(w, "__qualname__", "?")}'
+                out[key] = out.get(key, 0) + o.cache_info().currsize
+    return out
+
+
 class Server:
     """one real application that serves a history (all routes of the zoo installed lazily)"""
 
@@ -193,31 +299,23 @@ class Server:
             from ombott import HTTPError
             config['errors_map'] = {cls: HTTPError(e._status_line, str(e.body))
                                     for cls, e in om.DefaultConfig.errors_map.items()}
-        from ombott import Ombott
+        config['catchall'] = bool(spec.get('catchall', True))
         self.app = zoo.make_app(spec, self.log)
         self.app.setup(config)
         self.cur = dict(routes=set(), prog=None)
 
+    def serve_obs(self, h, keep=None, validate=False):
+        return zoo.serve_one(self.app, self.log, self.cur, h['req'], body=h['body'], extra=h['extra'], pre=pre_of(h),
+                             validate=validate, env_cls=dict if validate else Env, input_cls=In, keep=keep)
+
     def serve(self, h, keep=None):
         """-> (status, headers, body bytes, urlrepr); `keep` collects weak references"""
-        req = h['req']
-        del self.log[:]
-        zoo.install_route(self.app, self.log, req, self.cur)
-        if req['route'][0] == 'h':
-            self.cur['prog'] = (req['route'][1], req['route'][2], PRE.get(h['pre']))
-        env = Env(zoo.make_environ(req, self.log, extra=h['extra']))
-        env['wsgi.input'] = In(h['body'])
-        urlrepr = zoo.url_repr(env, req, self.app.config)
-        if keep is not None:
-            keep.append(weakref.ref(env))
-            keep.append(weakref.ref(env['wsgi.input']))
-        starts = []
-        result = self.app(env, lambda s, hd, ei=None: starts.append((s, list(hd))))
-        data, shape = zoo.consume(result, self.log)
-        del result, env
-        if len(starts) != 1:
-            return ('start_response x%d' % len(starts), [], data, urlrepr)
-        return (starts[0][0], starts[0][1], data, urlrepr)
+        o = self.serve_obs(h, keep)
+        if o['escaped']:
+            return ('escaped ' + o['escaped'], [], o['data'], o['urlrepr'])
+        if len(o['starts']) != 1:
+            return ('start_response x%d' % len(o['starts']), [], o['data'], o['urlrepr'])
+        return (o['starts'][0][0], o['starts'][0][1], o['data'], o['urlrepr'])
 
 
 def show(resp):
@@ -230,15 +328,22 @@ def ser_hreq(h, urlrepr):
     if h.get('said') is not None:
         # what the handler read from the request, as a pristine process reports it
         req = dict(req, route=('h', req['route'][1], ('ret', ('t', h['said']))))
-    return zoo.ser_req(req, urlrepr) + [h['bodyerr'] or '-']
+    ext = h.get('ext')
+    exts = ['-'] if ext is None else [str(len(ext))] + [x for k, v in ext for x in (hs(k), hs(v))]
+    res = req['route'][2] if req['route'][0] == 'h' else ()
+    sg = str(sorted(SHARED).index(res[1][1])) if len(res) > 1 and res[1][0] == 'sh' else '-'
+    return zoo.ser_req(req, urlrepr) + [h['bodyerr'] or '-', sg] + exts
 
 
 def fixed_app(g, rng):
     """hooks / error handlers of a history's application"""
     r = rng.random()
     if r < .4:
-        return dict(before=[], after=[], errh=[])
+        return plain_spec()
     spec = g.app()
+    spec.pop('edits', None)          # C09's application is fixed over the history
+    spec.pop('catchall', None)
+    spec['shared'] = dict(SHARED)
     return spec
 
 
@@ -300,13 +405,13 @@ class C09(Check):
     def describe_uploads(self, hist):
         """for requests whose handler answers with what it read (uploads): obtain that text from a
         pristine process, served on an application without hooks, for the model's line"""
-        ups = [h for h in hist if h['pre'] == 'upload']
+        ups = [h for h in hist if h['pre'] in ('upload', 'wild')]
         if not ups:
             return
         plain = [dict(h, req=dict(h['req'], route=('h', [], h['req']['route'][2]), json=False)) for h in ups]
-        for h, r in zip(ups, self.reference().serve(dict(before=[], after=[], errh=[]), plain)):
+        for h, r in zip(ups, self.reference().serve(plain_spec(), plain)):
             if r[0] != '200 OK':
-                raise core.Infra(f'upload reference answered {r[0]}')
+                raise core.Infra(f'{h["kind"]} reference answered {r[0]}')
             h['said'] = r[2].decode('utf8')
 
     def run_history(self, spec, hist, retention=False):
@@ -358,8 +463,8 @@ class C09(Check):
         for kind in ['chunked-garbage', 'oversize', 'bad-json', 'request-error', 'crash', 'badpath', 'nf',
                      'cookie-then-body-error']:
             for N in sizes:
-                hist = [gen_hreq(g, rng, i + 1, kind, dict(before=[], after=[], errh=[])) for i in range(N)]
-                spec = dict(before=[], after=[], errh=[])
+                hist = [gen_hreq(g, rng, i + 1, kind, plain_spec()) for i in range(N)]
+                spec = plain_spec()
                 outs, urls, live = self.run_history(spec, hist, retention=True)
                 toks = zoo.ser_app(spec) + [str(N)]
                 for h, u in zip(hist, urls):
@@ -442,10 +547,10 @@ class C09(Check):
 
     def _retention(self, kind, N, rng):
         g = zoo.Gen(rng)
-        srv = Server(dict(before=[], after=[], errh=[]))
+        srv = Server(plain_spec())
         keep = []
         for i in range(N):
-            srv.serve(gen_hreq(g, rng, i + 1, kind, dict(before=[], after=[], errh=[])), keep)
+            srv.serve(gen_hreq(g, rng, i + 1, kind, plain_spec()), keep)
         gc.collect()
         envs = len([1 for r in keep[0::2] if r() is not None])
         inputs = len([1 for r in keep[1::2] if r() is not None])
@@ -455,36 +560,39 @@ class C09(Check):
         """number of objects the collector tracks after N and after 2N requests of one kind (varied
         urls / bodies); a leak proportional to the number of requests shows as growth"""
         g = zoo.Gen(rng)
-        srv = Server(dict(before=[], after=[], errh=[]))
+        srv = Server(plain_spec())
         rid = [0]
 
         def burst(k):
             for _ in range(k):
                 rid[0] += 1
-                srv.serve(gen_hreq(g, rng, rid[0], kind, dict(before=[], after=[], errh=[])))
+                srv.serve(gen_hreq(g, rng, rid[0], kind, plain_spec()))
+        import sys
         import tracemalloc
         tracemalloc.start()            # before the warm-up, so that replaced cache entries balance out
         burst(300)                     # warm-up: routes installed, lru caches of urllib (128 entries) saturated
         burst(N)
+        container_sizes()              # (its own imports happen now, not between the two measurements)
         gc.collect()
-        a, ma = len(gc.get_objects()), tracemalloc.get_traced_memory()[0]
+        a, ma, ca, ba = len(gc.get_objects()), tracemalloc.get_traced_memory()[0], container_sizes(), sys.getallocatedblocks()
         burst(N)
         gc.collect()
-        b, mb = len(gc.get_objects()), tracemalloc.get_traced_memory()[0]
+        b, mb, cb, bb = len(gc.get_objects()), tracemalloc.get_traced_memory()[0], container_sizes(), sys.getallocatedblocks()
         tracemalloc.stop()
-        return a, b, ma, mb
+        grown = sorted((k, ca.get(k, 0), v) for k, v in cb.items() if v - ca.get(k, 0) >= max(8, N // 8))
+        return a, b, ma, mb, bb - ba, grown
 
     def _class_state(self, kind, n, rng):
         """serve one history of every request kind (warm-up), fingerprint the class-level state, serve
         another history of the same kinds with other urls / bodies / values, fingerprint again"""
         g = zoo.Gen(rng)
-        srv = Server(dict(before=[], after=[], errh=[]))
+        srv = Server(plain_spec())
         rid = [0]
 
         def one_pass():
             for k in KINDS * max(1, n):
                 rid[0] += 1
-                srv.serve(gen_hreq(g, rng, rid[0], k, dict(before=[], after=[], errh=[])))
+                srv.serve(gen_hreq(g, rng, rid[0], k, plain_spec()))
         one_pass()
         a = class_state_snapshot()
         one_pass()
@@ -492,10 +600,10 @@ class C09(Check):
         return [(k, str(a.get(k))[:200], str(b.get(k))[:200]) for k in sorted(set(a) | set(b)) if a.get(k) != b.get(k)]
 
     @staticmethod
-    def grew(N, a, b, ma, mb):
+    def grew(N, a, b, ma, mb, blocks=0):
         """growth proportional to the number of requests (lru caches of the standard library that are
-        periodically cleared account for some tens of kilobytes either way)"""
-        return b - a > max(60, N // 10) or mb - ma > max(40960, 48 * N)
+        periodically cleared account for some tens of kilobytes / hundreds of blocks either way)"""
+        return b - a > max(60, N // 10) or mb - ma > max(40960, 48 * N) or blocks > max(600, N // 2)
 
     def search(self, rng, n, seeds):
         try:
@@ -504,6 +612,7 @@ class C09(Check):
             self.close_reference()
 
     def _search(self, rng, n, seeds):
+        self.stats = getattr(self, 'stats', {})
         findings, evals = [], 0
         g = zoo.Gen(rng, safe_headers=True, odd_status=False)
         g.safe_names = ['X-A', 'X-B', 'ETag', 'x_y', 'Allow', 'Last-Modified']   # Content-Type stays the framework's
@@ -535,19 +644,20 @@ class C09(Check):
             findings.append(Finding(f'C09:class-state:{name}',
                                     f'serving further requests changed {name}: {before} -> {after}',
                                     dict(kind='class-state', n=2)))
-        growth_kinds = fail_kinds + ['ok-cookie', 'raise-resp', 'good-body', 'upload']
-        if n < 2000:      # quick tier: uploads and two other kinds per run; thorough: every kind
-            growth_kinds = ['upload'] + rng.sample([k for k in growth_kinds if k != 'upload'], 2)
+        growth_kinds = fail_kinds + ['ok-cookie', 'raise-resp', 'good-body', 'upload', 'wild', 'login', 'app-resp']
+        if n < 2000:      # quick tier: uploads, wildcard routes and two other kinds per run; thorough: every kind
+            growth_kinds = ['upload', 'wild'] + rng.sample([k for k in growth_kinds if k not in ('upload', 'wild')], 2)
         for kind in growth_kinds:
             evals += 1
             N = 800 if n < 2000 else 3000
-            a, b, ma, mb = self.reference().measure('growth', kind, N, rng.randrange(1 << 30))
-            self.stats.setdefault('growth', {})[kind] = [b - a, mb - ma]
-            if self.grew(N, a, b, ma, mb):
+            a, b, ma, mb, blocks, grown = self.reference().measure('growth', kind, N, rng.randrange(1 << 30))
+            self.stats.setdefault('growth', {})[kind] = [b - a, mb - ma, blocks]
+            if self.grew(N, a, b, ma, mb, blocks) or grown:
                 findings.append(Finding(
-                    f'C09:growth:{kind}',
-                    f'{N} further requests of kind {kind} grew the number of live objects from {a} to {b} and the '
-                    f'traced memory from {ma} to {mb} bytes',
+                    f'C09:growth:{kind}' + (':' + grown[0][0] if grown else ''),
+                    f'{N} further requests of kind {kind} (all-different URLs / values) grew the number of live objects '
+                    f'from {a} to {b}, the traced memory from {ma} to {mb} bytes, the allocated blocks by {blocks}'
+                    + (f'; containers / caches that grew with the requests: {grown[:4]}' if grown else ''),
                     dict(kind='growth', fail_kind=kind, n=N)))
         big = set(fail_kinds if n >= 2000 else rng.sample(fail_kinds, 4))
         for kind in fail_kinds:
@@ -566,8 +676,8 @@ class C09(Check):
 
     @staticmethod
     def _spec(d):
-        return dict(before=[tuple(h) for h in d['before']], after=[tuple(h) for h in d['after']],
-                    errh=[tuple(e) for e in d['errh']])
+        from harness.c03 import spec_of
+        return spec_of(d)
 
     def replay(self, data):
         i = data['input']
@@ -578,10 +688,11 @@ class C09(Check):
             return dict(changed=changed, violates=bool(changed), input=i)
         if i.get('kind') == 'growth':
             import random
-            a, b, ma, mb = self.reference().measure('growth', i['fail_kind'], i['n'], 0)
+            a, b, ma, mb, blocks, grown = self.reference().measure('growth', i['fail_kind'], i['n'], 0)
             self.close_reference()
             return dict(input=i, objects_after_n=a, objects_after_2n=b, bytes_after_n=ma, bytes_after_2n=mb,
-                        violates=self.grew(i['n'], a, b, ma, mb))
+                        blocks_between=blocks, grown_containers=grown,
+                        violates=self.grew(i['n'], a, b, ma, mb, blocks) or bool(grown))
         if i.get('kind') == 'retention':
             import random
             envs, inputs = self.reference().measure('retention', i['fail_kind'], i['n'], 0)
